@@ -1,5 +1,5 @@
 (* C08 — GSM optimisers return feasible, cost-consistent, globally optimal service times.
-   Statements only; every proof is [exact <lemma of Alg/GSM_proofs.v or Alg/GSMTree_proofs.v>].
+   Statements only; every proof is [exact <lemma of Alg/GSM_proofs.v, GSMTree_proofs.v, GSMSerialTree_proofs.v or GSMRelabel_proofs.v>].
    Model: Alg/GSM.v.
      (a) gsm_helpers: [inbound_cst], [net_lead_time], [feasible] (every net lead time >= 0, S_k <= external outbound CST;
          the external inbound CST is part of [inbound_cst]), [solution_cost] (None = math domain error).
